@@ -389,7 +389,18 @@ class ScriptedServerWorld(ServerWorld):
                 elif probe == 'close':
                     conn.server_closed = True
                     conn._s2c(('close',))
+                elif probe == 'right_drop':
+                    # the right answer, and the connection is lost on its
+                    # heels: the client's UPGRADE may or may not get out
+                    conn._s2c(('frame', '3probe'))
+                    att['dropped'] = (self.k.seq, self.k.now)
+                    att['ponged'] = (self.k.seq, self.k.now)
+                    s.upgrade_dropped = self.k.now
+                    conn.server_closed = True
+                    conn._s2c(('close',))
                 # 'never': say nothing
+            elif att.get('dropped'):
+                pass
             elif data == '5' and att.get('ponged') and \
                     len(att['frames']) == 2:
                 s.transport = 'websocket'
